@@ -199,6 +199,15 @@ def require_tlc_ok(res, what):
 
 
 # ----------------------------------------------------------------------------- known findings
+def all_known_findings():
+    """known findings of the shared reference semantics apply wherever that oracle is reused (the signature is decided
+    spec-side by TLC, never from the implementation's output alone)"""
+    p = os.path.join(VERIF, "known_findings.json")
+    if not os.path.exists(p):
+        return []
+    return [k for k in json.load(open(p))["findings"] if k["status"] == "known"]
+
+
 def known_findings(prop):
     p = os.path.join(VERIF, "known_findings.json")
     if not os.path.exists(p):
